@@ -688,6 +688,17 @@ def content_edit(rng, c0, kind):
             if c.isrec(v):
                 resize_data(c, v, None)
         return c, 'numrecs %d -> %d' % (old, c.numrecs)
+    if kind == 'delatt':
+        owners = [('global', c.gatts)] + [('variable %d' % i, v.atts) for i, v in enumerate(c.vars)]
+        owners = [o for o in owners if o[1]]
+        if not owners:
+            return None
+        w, lst = rng.choice(owners)
+        k = rng.below(len(lst))
+        nm = lst[k].name
+        n0 = len(lst)
+        del lst[k]
+        return c, '%s attribute %r removed (%d -> %d attributes)' % (w, nm, n0, n0 - 1)
     if kind == 'dimlen':
         cand = [i for i, d in enumerate(c.dims) if d[1] != 0]
         if not cand:
@@ -959,32 +970,40 @@ def diff_verdict(rc, out):
     return 'error'
 
 
-def check_diff_pair(T, rng, co, base, a, b, klass, desc, np_, tag=''):
+def check_diff_pair(T, rng, co, base, a, b, klass, desc, np_, tag='', both_orders=False, extra=()):
     """tie 2 on one pair; the expectation is the oracle's logical_eq on the two files"""
     e = oeq(T, a, b)
     if e is None:
         co.viol.append(('oracle could not decode a generated pair (%s)' % klass, dict(base, pair=klass, desc=desc), None))
         return
     want = 'same' if e['logical_eq'] else 'differ'
-    for tool, n in (('cdfdiff', 1), ('ncmpidiff', np_)):
+    if extra:                   # tolerance options: the expectation is passed in (computed from the oracle's values)
+        want = extra[1]
+    for tool, n, x, y, od in [(t, n, a, b, '') for t, n in (('cdfdiff', 1), ('ncmpidiff', np_))] + \
+                             ([(t, n, b, a, ':swapped') for t, n in (('cdfdiff', 1), ('ncmpidiff', np_))] if both_orders else []):
         exe = getattr(T, tool)
-        rc, out = mpi(n, exe, [a, b], timeout=120)
+        opts = list(extra[0]) if extra else []
+        rc, out = mpi(n, exe, opts + [x, y], timeout=120)
         got = diff_verdict(rc, out)
-        if got == 'error':          # an MPI launch can fail under load: one retry, the first output is kept
+        if got == 'error' and rc not in (136, -8, 139, -11, 134, -6):   # an MPI launch can fail under load: one retry
             co.stat('retry:%s' % tool)
             first = out
-            rc, out = mpi(n, exe, [a, b], timeout=240)
+            rc, out = mpi(n, exe, opts + [x, y], timeout=240)
             got = diff_verdict(rc, out)
             out = out + '\n[first attempt]\n' + first[-800:]
-        co.counts.append(('%s np=%d %s: %s | %s -> %s' % (tool, n, klass, desc, base['script_sha'], got), True))
+        if got == 'error':
+            got = 'crash(rc=%d)' % rc
+        co.counts.append(('%s %s np=%d %s%s: %s | %s -> %s' % (tool, ' '.join(opts), n, klass, od, desc, base['script_sha'], got), True))
         co.stat('diff:%s:%s:%s' % (tool, klass, want))
         if got != want:
-            key = '%s:%s-expected:%s%s' % (tool, want, klass, (':' + tag) if tag else '')
-            co.viol.append(('%s reports "%s" for a pair whose logical_eq is %s (%s: %s)' %
-                            (tool, got, e['logical_eq'], klass, desc),
-                            dict(base, pair=klass, desc=desc, tool=tool, np=n, rc=rc, output=out[-1500:],
-                                 oracle=e, file_a=open(a, 'rb').read().hex()[:60000], file_b=open(b, 'rb').read().hex()[:60000]),
-                            key))
+            key = '%s:%s-expected:%s%s%s' % (tool, want, klass, (':' + tag) if tag else '', od)
+            if got.startswith('crash'):
+                key = '%s:crash:%s%s%s' % (tool, klass, (':' + tag) if tag else '', od)
+            co.viol.append(('%s %s reports "%s" for a pair that should be reported "%s" (logical_eq %s; %s%s: %s)' %
+                            (tool, ' '.join(opts), got, want, e['logical_eq'], klass, od, desc),
+                            dict(base, pair=klass, desc=desc, tool=tool, options=opts, order=od or 'as given', np=n, rc=rc,
+                                 output=out[-1500:], oracle=e, file_a=open(x, 'rb').read().hex()[:60000],
+                                 file_b=open(y, 'rb').read().hex()[:60000]), key))
     return e
 
 
@@ -1329,7 +1348,7 @@ def run_case(T, seed, idx, tier):
                             'begins %r vs %r' % ([v['begin'] for v in c.vinfo], [v['begin'] for v in c2.vinfo]), rng.range(1, 3))
 
     # ---- single logical edits (tie 2)
-    kinds = ['value', 'attvalue', 'varname', 'dimname', 'attname', 'numrecs-field', 'format', 'numrecs', 'dimlen']
+    kinds = ['value', 'attvalue', 'varname', 'dimname', 'attname', 'numrecs-field', 'format', 'numrecs', 'dimlen', 'delatt']
     rng.shuffle(kinds)
     nedit = 4 if tier == 'quick' else 7
     done = 0
@@ -1338,7 +1357,7 @@ def run_case(T, seed, idx, tier):
             break
         Ep = os.path.join(d, 'edit-%s.nc' % kind)
         tag = ''
-        if kind in ('format', 'numrecs', 'dimlen'):
+        if kind in ('format', 'numrecs', 'dimlen', 'delatt'):
             if c.info.get('data_ok') != 1:
                 continue
             ed = content_edit(rng, c, kind)
@@ -1357,7 +1376,7 @@ def run_case(T, seed, idx, tier):
             eb, desc, tag = ed
             open(Ep, 'wb').write(eb)
         done += 1
-        e = check_diff_pair(T, rng, co, base, A, Ep, 'edit-' + kind, desc, rng.range(1, 3), tag=tag)
+        e = check_diff_pair(T, rng, co, base, A, Ep, 'edit-' + kind, desc, rng.range(1, 3), tag=tag, both_orders=(kind == 'delatt'))
         if e is not None and e['logical_eq']:
             co.viol.append(('a single logical edit (%s) left logical_eq true: the edit generator or the oracle is wrong' % desc,
                             dict(base, desc=desc), None))
@@ -1526,6 +1545,231 @@ def run_bigcase(T, seed, idx, fmt, padlen, boundary, label, full):
     return co
 
 
+# =============================================================================== family "record offsets"
+# ncoffsets has a private header decoder; its per-record offsets (-r), sizes (-s) and gaps (-g, -x) are compared with
+# begin + k * recsize from the oracle decode (recsize by the format's rule: a single record variable is packed).
+REC_TYPES = {1: [1, 2], 2: [3], 4: [4, 5], 8: [6]}
+OFF_OPTS = [['-r'], ['-s', '-r'], ['-g', '-r'], ['-sgr'], ['-s', '-g'], ['-r', '-s', '-v', '@rec'], ['-r', '-v', '@all'], ['-x']]
+
+
+def rec_grid():
+    for fmt in (1, 2, 5):
+        for nfix in (0, 1, 2):
+            for nrec in (1, 2):
+                for xs in (1, 2, 4, 8):
+                    for cnt in (1, 2, 3, 4, 5):
+                        for nr in (0, 1, 2, 3, 4):
+                            yield (fmt, nfix, nrec, xs, cnt, nr)
+
+
+def rec_plan(rng, tier):
+    g = list(rec_grid())
+    if tier != 'quick':
+        return g
+    must = [(f, 1, 1, 2, 3, 3) for f in (1, 2, 5)] + [(1, 1, 1, 1, 5, 2), (2, 2, 1, 1, 1, 4), (5, 0, 1, 2, 3, 3),
+                                                     (1, 1, 2, 2, 3, 3), (2, 1, 1, 8, 1, 2), (5, 2, 1, 2, 5, 4)]
+    rest = [x for x in g if x not in must]
+    rng.shuffle(rest)
+    return must + rest[:27]
+
+
+def rec_script(rng, spec):
+    fmt, nfix, nrec, xs, cnt, nr = spec
+    L = ['nprocs 1', '* create 0 %d 1' % fmt, '* def_dim 0 %s -1' % hx('t'), '* def_dim 0 %s %d' % (hx('n'), cnt),
+         '* def_dim 0 %s 3' % hx('m')]
+    vs = []                                          # (name, type, dimids, isrec)
+    rtypes = [rng.choice(REC_TYPES[xs])] + [rng.choice([3, 4, 1, 6])] * (nrec - 1)
+    for i, t in enumerate(rtypes):
+        vs.append(('rec' if i == 0 else 'rec2', t, [0, 1] if (i == 0 or rng.chance(1, 2)) else [0], True))
+    fx = [('fa', rng.choice([3, 1, 4]), [2], False), ('fb', rng.choice([2, 6, 3]), rng.choice([[1], [], [2, 1]]), False)][:nfix]
+    order = rng.below(3)                             # fixed first / record first / interleaved
+    vs = fx + vs if order == 0 else (vs + fx if order == 1 else [x for p in zip(vs, fx) for x in p] + vs[len(fx):] + fx[len(vs):])
+    for n, t, ids, _ in vs:
+        L.append('* def_var 0 %s %d %d %s' % (hx(n), t, len(ids), ' '.join(map(str, ids))))
+    if rng.chance(1, 3):
+        L.append('* _enddef 0 %d %d %d %d' % (rng.choice([0, 16]), rng.choice([0, 8, 64]), rng.choice([0, 8]), rng.choice([0, 4, 64])))
+    else:
+        L.append('* enddef 0')
+    L.append('* begin_indep 0')
+    dimlen = [nr, cnt, 3]
+    seed = 1 + rng.below(500)
+    for vid, (n, t, ids, isrec) in enumerate(vs):
+        if isrec and nr == 0:
+            continue
+        k = 3 if t == 5 else t
+        if not ids:
+            L.append('0 put 0 i %d var1 t%d c 0 pat %d' % (vid, k, seed + vid))
+        else:
+            L.append('0 put 0 i %d vara t%d c %d %s %s pat %d' % (vid, k, len(ids), ' '.join('0' for _ in ids),
+                                                                   ' '.join(str(dimlen[i]) for i in ids), seed + vid))
+    L += ['* end_indep 0', '* close 0']
+    return '\n'.join(L) + '\n', [v[0] for v in vs]
+
+
+def expected_offsets(c):
+    """per variable, from the oracle decode: begin, unpadded size of one record / of the variable, gap from the previous
+    variable of the same section (ncoffsets' definition: from the unpadded end of the previous one; the first fixed one
+    from the header size; the first record one from the last fixed one's end, or the header size)"""
+    I = c.info
+    res = {}
+    fixed = [(i, v) for i, v in enumerate(c.vars) if not c.isrec(v)]
+    recs = [(i, v) for i, v in enumerate(c.vars) if c.isrec(v)]
+    prev_end = I['hdr_len']
+    for grp in (fixed, recs):
+        for i, v in grp:
+            b = c.vinfo[i]['begin']
+            size = c.nper(v) * ELSIZE[v.type]
+            res[v.name.decode('latin-1')] = dict(begin=b, size=size, gap=b - prev_end, isrec=c.isrec(v))
+            prev_end = b + size
+    xgap = 0
+    pe = None
+    for i, v in fixed:
+        if pe is not None and c.vinfo[i]['begin'] - pe != 0:
+            xgap = 1
+        pe = c.vinfo[i]['begin'] + c.nper(v) * ELSIZE[v.type]
+    return res, xgap
+
+
+def run_reccase(T, seed, idx, spec):
+    co = CaseOut()
+    rng = C.SplitMix64(seed * 1000003 + idx * 15485863 + 11)
+    text, names = rec_script(rng, spec)
+    d = os.path.join(T.d, 'rec%d' % idx)
+    os.makedirs(d, exist_ok=True)
+    sha = 'rec:' + ':'.join(map(str, spec))
+    base = dict(case='rec%d' % idx, case_seed=seed, family='record-offsets', script=text, script_sha=sha,
+                rec=dict(idx=idx, spec=list(spec)), features=[])
+    r = S.run_script(text, T.pnc_impl, None, d, 'w', keep=True, want_model=False, timeout=120)
+    A = os.path.join(r.dir, 'f0.nc')
+    bad = [(k, t) for k, t in sorted(r.impl.items()) if len(t) >= 2 and t[0] in ('put', 'def_var', 'def_dim', 'enddef', '_enddef', 'close') and t[1] != '0']
+    if r.rc != 0 or not os.path.exists(A) or bad:
+        co.viol.append(('the record-offsets session failed (rc %s, %r)' % (r.rc, bad[:2]), dict(base, output=r.stdout[-800:]), None))
+        return co
+    c = odump(T, A)
+    fmt, nfix, nrec, xs, cnt, nr = spec
+    if c.info.get('decode') != 1 or c.numrecs != nr or len(c.vars) != nfix + nrec:
+        co.viol.append(('record-offsets file is not what the script defined (numrecs %d, %d variables)' % (c.numrecs, len(c.vars)),
+                        dict(base), None))
+        return co
+    co.stat('family:record-offsets')
+    co.stat('record-offsets:nfix%d:nrec%d' % (nfix, nrec))
+    exp, xgap = expected_offsets(c)
+    recsize = c.info['recsize']
+    if nrec == 1 and (cnt * xs) % 4 and nr >= 2:
+        co.stat('record-offsets:packed-single-record-variable%s' % ('+fixed' if nfix else '-alone'))
+    for opts in OFF_OPTS:
+        sel = None
+        o = []
+        for x in opts:
+            if x == '@rec':
+                sel = ['rec']; o.append('rec')
+            elif x == '@all':
+                sel = list(names); o.append(','.join(names))
+            else:
+                o.append(x)
+        cmd = [T.ncoffsets] + o + [A]
+        rc, out = sh_(cmd, timeout=60)
+        tag = ''.join(x.lstrip('-') for x in opts if x.startswith('-'))
+        co.counts.append(('ncoffsets %s | %s' % (' '.join(o), sha), True))
+        co.stat('offsets-opts:' + ' '.join(opts))
+        probs = []
+        if rc != 0:
+            probs.append(('error', 'exit status %d' % rc))
+        elif opts == ['-x']:
+            if out.strip() != str(xgap):
+                probs.append(('x', 'printed %r, expected %d (begins %r)' % (out.strip(), xgap, [v['begin'] for v in c.vinfo])))
+        else:
+            po = CDL.parse_ncoffsets(out)
+            allr = 'r' in tag
+            got = {v['name']: v for v in po['fixed'] + po['record']}
+            want_names = sel if sel is not None else [v.name.decode('latin-1') for v in c.vars]
+            if sorted(got) != sorted(want_names):
+                probs.append(('vars', 'variables printed %r, expected %r' % (sorted(got), sorted(want_names))))
+            for n in want_names:
+                if n not in got:
+                    continue
+                e, g = exp[n], got[n]
+                if e['isrec'] != (g in po['record']):
+                    probs.append(('section', '%s printed in the wrong section' % n))
+                k = (nr if allr else 1) if e['isrec'] else 1
+                wr = [[e['begin'] + j * (recsize if e['isrec'] else 0), e['begin'] + j * (recsize if e['isrec'] else 0) + e['size'],
+                       j if e['isrec'] else None] for j in range(k)]
+                if g.get('recs', []) != wr:
+                    probs.append(('record-offsets' if e['isrec'] else 'fixed-offsets',
+                                  '%s: printed (start,end,record) %r, oracle %r (begin %d, recsize %d, numrecs %d)' %
+                                  (n, g.get('recs'), wr, e['begin'], recsize, nr)))
+                if ('s' in tag) != ('size' in g) or ('s' in tag and g['size'] != e['size']):
+                    probs.append(('size', '%s: size printed %r, oracle %d' % (n, g.get('size'), e['size'])))
+                if 'g' in tag and sel is None and g.get('gap') != e['gap']:
+                    probs.append(('gap', '%s: gap printed %r, oracle %d' % (n, g.get('gap'), e['gap'])))
+        seen = set()
+        for k, msg in probs:
+            if k in seen:
+                continue
+            seen.add(k)
+            co.viol.append(('ncoffsets %s disagrees with the decoded file: %s' % (' '.join(o), msg),
+                            dict(base, command='ncoffsets ' + ' '.join(o) + ' <file>', problem=msg, output=out[-3000:],
+                                 file=open(A, 'rb').read().hex()[:60000]), 'ncoffsets:%s:%s' % (tag, k)))
+    if not os.environ.get('C20_KEEP'):
+        shutil.rmtree(d, ignore_errors=True)
+    return co
+
+
+# =============================================================================== deterministic mini cases
+def enc_int(t, v):
+    import struct
+    if t == 5:
+        return struct.pack('>f', v)
+    if t == 6:
+        return struct.pack('>d', v)
+    return (v % (1 << (8 * ELSIZE[t]))).to_bytes(ELSIZE[t], 'big')
+
+
+def mk_cont(fmt, gatts, typ, vals):
+    c = Cont()
+    c.fmt = fmt
+    c.dims = [(b'x', len(vals))]
+    c.gatts = gatts
+    v = Var(b'v', typ, [0])
+    v.data = [enc_int(typ, x) for x in vals]
+    c.vars = [v]
+    return c
+
+
+def run_minicase(T, seed, which):
+    """(a) tolerance option of the diff tools on pairs differing by 2 in one element, per type, both argument orders:
+    -t 10,0 must report SAME, -t 1,0 must report DIFF (|x-y| from the oracle's decoded values);
+    (b) one file with a global attribute, the other with none (one attribute removed), both orders."""
+    co = CaseOut()
+    rng = C.SplitMix64(seed + 99)
+    d = os.path.join(T.d, 'mini-%s' % which)
+    os.makedirs(d, exist_ok=True)
+    base = dict(case='mini-' + str(which), case_seed=seed, family='mini', script='mini case %s' % which, script_sha='mini:%s' % which,
+                mini=which, features=[])
+    A, B = os.path.join(d, 'a.nc'), os.path.join(d, 'b.nc')
+    if which == 'gatt-none':
+        for fmt in (1, 5):
+            oencode(T, mk_cont(fmt, [Att(b'title', 2, 5, b'hello')], 4, [1, 2, 3]), {}, A)
+            oencode(T, mk_cont(fmt, [], 4, [1, 2, 3]), {}, B)
+            check_diff_pair(T, rng, co, base, A, B, 'edit-delatt', 'CDF-%d: the only global attribute removed (1 -> 0 attributes)' % fmt,
+                            1, both_orders=True)
+    else:
+        t = which
+        fmt = 5 if t > 6 else rng.choice([1, 2, 5])
+        oencode(T, mk_cont(fmt, [], t, [3, 100, 7, 50]), {}, A)
+        oencode(T, mk_cont(fmt, [], t, [5, 100, 7, 50]), {}, B)
+        va = [pyval(x) for x in odump(T, A).vars[0].vals]
+        vb = [pyval(x) for x in odump(T, B).vars[0].vals]
+        md = max(abs(Fraction(x) - Fraction(y)) for x, y in zip(va, vb))
+        for D in (10, 1):
+            want = 'same' if md <= D else 'differ'
+            check_diff_pair(T, rng, co, base, A, B, 'tolerance', 'type %s, one element 3 vs 5, -t %d,0 (max |x-y| = %s)' % (TYPE_NAME[t], D, md),
+                            1, tag=TYPE_NAME[t], both_orders=True, extra=(['-t', '%d,0' % D], want))
+    if not os.environ.get('C20_KEEP'):
+        shutil.rmtree(d, ignore_errors=True)
+    return co
+
+
 # =============================================================================== driver
 def setup_tools(lib, oracle):
     """copy the utilities and the script driver out of the (evictable) library cache"""
@@ -1571,6 +1815,9 @@ def run(ctx):
     plan = big_plan(T, ctx.rng.fork('large-header'), ctx.tier, pco) if os.environ.get('C20_BIG', '1') != '0' else []
     with cf.ThreadPoolExecutor(max_workers=8) as ex:
         futs = [ex.submit(run_bigcase, T, case_seed, j, *pl) for j, pl in enumerate(plan)]
+        rplan = rec_plan(ctx.rng.fork('record-offsets'), ctx.tier) if os.environ.get('C20_REC', '1') != '0' else []
+        futs += [ex.submit(run_reccase, T, case_seed, j, sp) for j, sp in enumerate(rplan)]
+        futs += [ex.submit(run_minicase, T, case_seed, w) for w in ['gatt-none', 3, 4, 5, 6, 7, 8, 9, 10, 11]]
         futs += [ex.submit(run_case, T, case_seed, i, ctx.tier) for i in range(ncases)]
         done_pco = cf.Future()
         done_pco.set_result(pco)
@@ -1607,10 +1854,15 @@ def run(ctx):
                        'attribute of swept length) so that each kind of later header field (attribute name length/bytes/type/nelems/'
                        'values, list tag/nelems, variable name, ndims, dimid, type, vsize, begin; CDF-1/2/5) lies on or across the read '
                        'chunk boundary at every 4-byte shift (thorough: full sweep; quick: 8-byte fields starting 4 bytes before the '
-                       'boundary, one per kind); ncvalidator on all, cdfdiff/ncmpidiff/ncmpidump/ncoffsets/oracle re-encoding on a subset.')
+                       'boundary, one per kind); ncvalidator on all, cdfdiff/ncmpidiff/ncmpidump/ncoffsets/oracle re-encoding on a subset. '
+                       'Family record-offsets: library-written files over the grid {0,1,2} fixed x {1,2} record variables x element '
+                       'size 1/2/4/8 x per-record count 1..5 x numrecs 0..4 x CDF-1/2/5 (thorough: all 1800; quick: 36 incl. one '
+                       'record + one fixed variable, 2-byte type, count 3, 3 records); ncoffsets -r, -s -r, -g -r, -sgr, -s -g, '
+                       '-r -s -v, -r -v, -x: every printed start/end/size/gap against begin + k*recsize of the oracle decode.')
     ctx.cov['distribution'] = dict(sorted(stats.items()))
     ctx.cov['cases'] = ncases
     ctx.cov['large_header_files'] = len(plan)
+    ctx.cov['record_offsets_files'] = len(rplan)
 
 
 def replay(ctx, d):
@@ -1624,17 +1876,17 @@ def replay(ctx, d):
         p = os.path.join(w, name)
         open(p, 'wb').write(bytes.fromhex(hx_))
         return p
-    if not d.get('big') and d.get('tool') in ('cdfdiff', 'ncmpidiff') and len(d.get('file_a', '')) < 60000 and len(d.get('file_b', '')) < 60000 and d.get('file_a'):
+    if d.get('mini') is None and not d.get('big') and not d.get('rec') and d.get('tool') in ('cdfdiff', 'ncmpidiff') and len(d.get('file_a', '')) < 60000 and len(d.get('file_b', '')) < 60000 and d.get('file_a'):
         a, b = put('a.nc', d['file_a']), put('b.nc', d['file_b'])
         e = oeq(T, a, b)
-        rc, out = mpi(int(d.get('np', 1)), getattr(T, d['tool']), [a, b])
+        rc, out = mpi(int(d.get('np', 1)), getattr(T, d['tool']), list(d.get('options', [])) + [a, b])
         got = diff_verdict(rc, out)
         print('oracle:', e, '| %s np=%s: rc %d -> %s' % (d['tool'], d.get('np', 1), rc, got))
         print(out[-1500:])
         bad = e is None or got != ('same' if e['logical_eq'] else 'differ')
         print('REPLAY: %s' % ('disagreement reproduced' if bad else 'tool and oracle agree now'))
         return 1 if bad else 0
-    if not d.get('big') and d.get('klass') and d.get('file') and len(d['file']) < 60000:
+    if not d.get('big') and not d.get('rec') and d.get('klass') and d.get('file') and len(d['file']) < 60000:
         p = put('m.nc', d['file'])
         rc, out = sh_([T.oracle, 'valid', p])
         t = out.split()
@@ -1648,7 +1900,11 @@ def replay(ctx, d):
         print(vout[-1500:])
         print('REPLAY: %s' % ('disagreement reproduced' if got != want else 'tool and oracle agree now'))
         return 1 if got != want else 0
-    if d.get('big'):
+    if d.get('mini') is not None:
+        co = run_minicase(T, int(d.get('case_seed', ctx.seed)), d['mini'])
+    elif d.get('rec'):
+        co = run_reccase(T, int(d.get('case_seed', ctx.seed)), d['rec']['idx'], tuple(d['rec']['spec']))
+    elif d.get('big'):
         g = d['big']
         co = run_bigcase(T, int(d.get('case_seed', ctx.seed)), g['idx'], g['fmt'], g['padlen'], g['boundary'], g['label'], True)
     else:
